@@ -131,6 +131,23 @@ func collect(f smf.SMF) (got []placed, ends []int64, ok bool) {
 	return got, ends, true
 }
 
+func sameTracks(a, b smf.SMF) bool {
+	if len(a.Tracks) != len(b.Tracks) {
+		return false
+	}
+	for i := range a.Tracks {
+		if len(a.Tracks[i]) != len(b.Tracks[i]) {
+			return false
+		}
+		for j := range a.Tracks[i] {
+			if a.Tracks[i][j].Delta != b.Tracks[i][j].Delta || !bytes.Equal(a.Tracks[i][j].Message, b.Tracks[i][j].Message) {
+				return false
+			}
+		}
+	}
+	return true
+}
+
 func sortPlaced(p []placed) {
 	sort.Slice(p, func(a, b int) bool {
 		if p[a].tick != p[b].tick {
@@ -205,6 +222,15 @@ func judge(s song) {
 	want, end, tracks := expected(s)
 	var f0, f1 smf.SMF
 	c := engine.Catch(func() { f0 = sq.ToSMF0(); f1 = sq.ToSMF1() })
+	if !c.Panicked && len(s.sigs) <= 3 {
+		// exporting is repeatable: a second export of the same song gives the same files
+		var g0, g1 smf.SMF
+		c2 := engine.Catch(func() { g1 = sq.ToSMF1(); g0 = sq.ToSMF0() })
+		if c2.Panicked || !sameTracks(f0, g0) || !sameTracks(f1, g1) {
+			report("export:not-repeatable", s, "a second export of the same song differs from the first "+c2.Value)
+			return
+		}
+	}
 	f := feature(s)
 	if c.Panicked {
 		report(c.Sig+":"+f, s, "export panicked: "+c.Value)
